@@ -1,9 +1,9 @@
 // C15 totality of the hand-written character scanners of CPPPreprocessor that
 // read from the input stream: scan_raw (C++11 raw strings), scan_quoted +
 // scan_escape_sequence, skip_c_comment / skip_cpp_comment, skip_digit_separator,
-// and of the static helper trim_blanks.  The real CPPPreprocessor::get()/peek()
-// run (unget slot, popping the input at EOF, synthesized newline); the byte
-// source underneath them is the harness buffer.
+// and of the static helper trim_blanks.  The scanners are the real code; the
+// character source under them (CPPPreprocessor::get/peek) is a small model of
+// one non-nested input, see below.
 // No oracle beyond "result no longer than the input": crashes, memory errors
 // and unbounded loops are the violations.
 #include "verif.h"
@@ -16,14 +16,26 @@
 #endif
 
 
-// The innermost input source.  CPPPreprocessor::get()/peek() (real) call InputFile::get()/peek(); those two are cut in
-// the catalogue and served from this byte buffer: end of input then pops and deletes the InputFile without a stream
-// object to destroy (destroying a std::istream is a virtual call that fans out over every stream class).  What is
-// lost is InputFile::get's own line/column bookkeeping and its skipping of '\r', which no scanner below depends on.
+// The character source.  CPPPreprocessor::get() and peek() are cut in the catalogue and replaced by this model of
+// their behaviour on ONE non-nested input of g_nbytes bytes: the unget slot first; then the bytes; at the end of the
+// input get() returns one synthesized '\n' (the real code pops the finished InputFile and says "just in case the file
+// doesn't already end with one") and EOF from then on, while peek() reports EOF as soon as the bytes are used up.
+// (The real get() deletes the popped InputFile and its std::istream: a virtual destructor call that fans out over
+// every stream class for the solver, at every get() of every scanner loop -- far beyond the budget.)
 static const char *g_bytes = 0;
 static int g_nbytes = 0, g_pos = 0;
-int CPPPreprocessor::InputFile::get() { if (g_pos < g_nbytes) return (unsigned char)g_bytes[g_pos++]; return EOF; }
-int CPPPreprocessor::InputFile::peek() { if (g_pos < g_nbytes) return (unsigned char)g_bytes[g_pos]; return EOF; }
+static bool g_newline_given = false;
+int CPPPreprocessor::get() {
+  if (_unget != '\0') { int c = _unget; _unget = '\0'; return c; }
+  if (g_pos < g_nbytes) return (unsigned char)g_bytes[g_pos++];
+  if (!g_newline_given) { g_newline_given = true; _infile = nullptr; return '\n'; }
+  return EOF;
+}
+int CPPPreprocessor::peek() {
+  if (_unget != '\0') return _unget;
+  if (g_pos < g_nbytes) return (unsigned char)g_bytes[g_pos];
+  return EOF;
+}
 
 static CPPPreprocessor *make_pp(const char *bytes, int n) {
   CPPPreprocessor *pp = new CPPPreprocessor;   // a real, typed object: the scanners follow _infile, a pointer stored in it
@@ -39,7 +51,7 @@ static CPPPreprocessor *make_pp(const char *bytes, int n) {
   pp->_state = CPPPreprocessor::S_normal;
   CPPPreprocessor::InputFile *f = new CPPPreprocessor::InputFile;
   f->_in = nullptr;
-  g_bytes = bytes; g_nbytes = n; g_pos = 0;
+  g_bytes = bytes; g_nbytes = n; g_pos = 0; g_newline_given = false;
   f->_parent = nullptr;
   f->_prev_last_c = '\0';
   pp->_infile = f;
